@@ -15,6 +15,7 @@ type scnProfile struct {
 	pIncomplete, pWeirdImport, pForeignExport, pManual int
 	minSteps, maxSteps                                 int
 	hostVariants                                       bool
+	shape                                              string // "" | "chain"
 }
 
 var legalNames = []string{"b0", "b1", "d1", "d2", "d1x", "d1-2", "x_y", "Zeta", "é1", "b", "d-", "日本"}
@@ -37,6 +38,8 @@ var weirdImports = []string{
 	"import bind /VB/hostsrc /",
 	"import bind /VB/hostsrc ../../escape",
 	"import bind /VB/hostsrc /mnt/host/deeper",
+	"import bind /VB/layers-shared/distfiles /mnt/shared",
+	"import bind $$self/shm /dev/shm",
 }
 
 type glayer struct {
@@ -191,13 +194,24 @@ func genLayerTree(g *Gen, t *treeB, l glayer, pf scnProfile, sloppy bool) {
 
 func genForest(g *Gen, pf scnProfile) []glayer {
 	n := g.Intn(6)
+	if pf.shape == "chain" {
+		n = 2 + g.Intn(3)
+	}
 	names := append([]string(nil), legalNames...)
 	g.Shuffle(len(names), func(i, j int) { names[i], names[j] = names[j], names[i] })
 	var ls []glayer
 	for i := 0; i < n; i++ {
 		l := glayer{name: names[i]}
 		if i > 0 && g.Chance(65, 100) {
-			l.base = ls[g.Intn(len(ls))].name
+			switch pf.shape {
+			case "chain":
+				l.base = ls[len(ls)-1].name
+			default:
+				l.base = ls[g.Intn(len(ls))].name
+				if g.Chance(40, 100) { // fan-out: several children of one parent
+					l.base = ls[0].name
+				}
+			}
 		}
 		pool := append([]string(nil), importPool...)
 		g.Shuffle(len(pool), func(a, b int) { pool[a], pool[b] = pool[b], pool[a] })
@@ -345,7 +359,7 @@ func genScenario(g *Gen, pf scnProfile) Case {
 				ln = forest[g.Intn(len(forest))].name
 			}
 			build := VB + "/layers/" + ln + "/build"
-			tgt := build + g.Pick("/proc", "/dev", "/mnt/host", "/mnt/sub", "/var/cache/binpkgs", "/mnt/gen", "/mnt/foreign", "")
+			tgt := build + g.Pick("/proc", "/dev", "/mnt/host", "/mnt/sub", "/var/cache/binpkgs", "/mnt/gen", "/mnt/foreign", "", "x", ".old", ".old/sub")
 			switch g.Intn(4) {
 			case 0:
 				st["args"] = hxs([]string{VB + "/hostsrc", tgt, "bind"})
@@ -412,7 +426,10 @@ var structuralCmds = []string{"add", "add", "add", "remove", "remove", "rename",
 var mountCmds = []string{"mount", "mount", "mount", "umount", "umount", "chroot", "shake", "mkdirs", "add", "probe", "sysmount", "sysumount", "sysumount"}
 var allCmds = append(append([]string{"init"}, structuralCmds...), mountCmds...)
 
+var chainCmds = []string{"mount", "mount", "mount", "mount", "umount", "sysumount", "sysumount", "chroot", "probe", "sysmount"}
+
 var profiles = map[string]scnProfile{
+	"scn-chain":  {name: "scn-chain", cmds: chainCmds, pUsers: 5, pIncomplete: 0, pWeirdImport: 10, pForeignExport: 5, minSteps: 5, maxSteps: 10, hostVariants: true, shape: "chain"},
 	"scn-mixed":  {name: "scn-mixed", cmds: allCmds, pFault: 10, pCrash: 5, pPretend: 10, pUsers: 20, pForce: 5, pIncomplete: 15, pWeirdImport: 8, pForeignExport: 10, minSteps: 3, maxSteps: 9, hostVariants: true},
 	"scn-struct": {name: "scn-struct", cmds: structuralCmds, pUsers: 10, pIncomplete: 10, pWeirdImport: 3, pForeignExport: 10, minSteps: 4, maxSteps: 10},
 	"scn-mount":  {name: "scn-mount", cmds: mountCmds, pUsers: 15, pForce: 5, pIncomplete: 10, pWeirdImport: 5, pForeignExport: 5, minSteps: 4, maxSteps: 10, hostVariants: true},
